@@ -337,7 +337,8 @@ func (t *transferWriter) writeBody(w io.Writer, dumps []*dump.Dumper) (err error
 		} else if t.ContentLength == -1 {
 			dst := w
 			if t.Method == "CONNECT" {
-				dst = bufioFlushWriter{dst}
+				// dst may be wrapped by the request body dumpers: flush the raw writer.
+				dst = bufioFlushWriter{w: dst, raw: rw}
 			}
 			ncopy, err = t.doBodyCopy(dst, body)
 		} else {
@@ -1058,12 +1059,13 @@ func isKnownInMemoryReader(r io.Reader) bool {
 }
 
 // bufioFlushWriter is an io.Writer wrapper that flushes all writes
-// on its wrapped writer if it's a *bufio.Writer.
-type bufioFlushWriter struct{ w io.Writer }
+// on its raw writer if it's a *bufio.Writer. raw is the writer that w
+// finally writes to (w itself unless w wraps it).
+type bufioFlushWriter struct{ w, raw io.Writer }
 
 func (fw bufioFlushWriter) Write(p []byte) (n int, err error) {
 	n, err = fw.w.Write(p)
-	if bw, ok := fw.w.(*bufio.Writer); n > 0 && ok {
+	if bw, ok := fw.raw.(*bufio.Writer); n > 0 && ok {
 		ferr := bw.Flush()
 		if ferr != nil && err == nil {
 			err = ferr
